@@ -1,7 +1,7 @@
 """C01 - compiled IC10 behaves like the source (translation validation, E1)."""
 from __future__ import annotations
 
-from .. import e1, equiv, gen, harness, ic10, comp
+from .. import e1, equiv, gen, harness, ic10, comp, probes
 from . import base
 
 PROP = "C01"
@@ -42,13 +42,15 @@ def twin_check(b):
 def run(tier: str) -> int:
     rep = harness.Report(PROP, tier, "translation_validation")
     rep.assumptions = ASSUMPTIONS
-    n_gen = 600 if tier == "thorough" else 48
+    n_gen = 600 if tier == "thorough" else 40
     known = harness.known_for(PROP)
     items = []
     for name, srcs in base.repo_sources():
         items.append(("src_vs_ic10", dict(name=name, sources=srcs, tier=tier, strict=False, timeout=240 if tier == "thorough" else 60)))
     for sp in base.gen_specs(n_gen, None, tier, salt=1):
         items.append(("src_vs_ic10", sp))
+    for pname, psrc in probes.all_probes():
+        items.append(("src_vs_ic10", dict(name=f"probe:{pname}", sources=psrc, tier=tier, timeout=60, features=["probe:" + pname.split(":")[0]])))
     for sp in base.witness_specs(WITNESSES, tier):
         sp["strict"] = True
         items.append(("src_vs_ic10", sp))
@@ -60,7 +62,7 @@ def run(tier: str) -> int:
 
     gen_res, repo_res, wit_res = [], [], []
     for (kind, spec), r in zip(items, results):
-        if spec["name"].startswith("gen:"):
+        if spec["name"].startswith(("gen:", "probe:")):
             gen_res.append(r)
         elif spec["name"].startswith("witness:"):
             wit_res.append(r)
@@ -102,6 +104,7 @@ def run(tier: str) -> int:
         functions_encoded=["stationeers_pytrapic.compiler.compile_code (executed; its output is the object of the encoding)",
                            "emitted IC10 program -> vf.ic10.Machine (symbolic)", "source program -> vf.source.Interp (symbolic)"],
         bounds=e1.bounds_for(tier).as_dict(),
+        construct_probes=len(probes.all_probes()),
         generated=dict(n=len(gen_res), by_status=base.count_by(gen_res), features=base.feature_histogram(gen_res)),
         repository_sources=dict(n=len(repo_res), by_status=base.count_by(repo_res)),
         witnesses=dict(n=len(wit_res), by_status=base.count_by(wit_res)),
